@@ -8,7 +8,8 @@
 //! Oracles, for both directions A->B and B->A:
 //!  * `git diff-tree -r --no-renames --raw -z --no-abbrev A B` (and the `-t` variant for tree entries) must equal the
 //!    multiset of changes recorded by `gix_diff::tree(.., Recorder)` (path, old mode/id, new mode/id);
-//!  * the high-level `gix::Repository::diff_tree_to_tree` (rewrites off) must report the same multiset;
+//!  * `gix_diff::tree_with_rewrites` with rewrites off (the function behind `gix::Repository::diff_tree_to_tree`) must
+//!    report the same multiset;
 //!  * applying the recorded non-tree changes to the flattened listing of the first tree (`git ls-tree -r`) yields the
 //!    flattened listing of the second;
 //!  * `Location::FileName` tracking reports the base name of each path, record by record.
@@ -481,6 +482,93 @@ fn classify(git: &[Row], gix: &[Row]) -> &'static str {
     }
 }
 
+/// a bare repository skeleton written by hand (saves the `git init` spawn)
+struct FastWorld {
+    #[allow(dead_code)]
+    scratch: Scratch,
+    git: Git,
+}
+
+impl FastWorld {
+    fn new(tag: &str) -> Result<FastWorld, String> {
+        let scratch = Scratch::new(tag).map_err(|e| format!("scratch: {e}"))?;
+        let home = scratch.join("home");
+        let repo = scratch.join("repo");
+        let mk = |p: std::path::PathBuf| std::fs::create_dir_all(&p).map_err(|e| format!("mkdir {}: {e}", p.display()));
+        mk(home.clone())?;
+        mk(repo.join("objects").join("info"))?;
+        mk(repo.join("objects").join("pack"))?;
+        mk(repo.join("refs").join("heads"))?;
+        mk(repo.join("refs").join("tags"))?;
+        std::fs::write(repo.join("HEAD"), "ref: refs/heads/main\n").map_err(|e| e.to_string())?;
+        std::fs::write(
+            repo.join("config"),
+            "[core]\n\trepositoryformatversion = 0\n\tfilemode = true\n\tbare = true\n",
+        )
+        .map_err(|e| e.to_string())?;
+        let git = Git::new(&repo, &home);
+        Ok(FastWorld { scratch, git })
+    }
+    fn repo(&self) -> std::path::PathBuf {
+        self.git.dir.clone()
+    }
+}
+
+/// parse the output of `diff-tree --stdin -z`: per pair an optional header line `<a> <b>\n` followed by records
+fn parse_stdin_output(out: &[u8], fwd: (&str, &str)) -> Result<(Vec<Row>, Vec<Row>), String> {
+    let mut sections: Vec<(String, Vec<u8>)> = Vec::new();
+    let mut p = 0;
+    while p < out.len() {
+        if out[p] == b':' {
+            // record: meta NUL path NUL
+            let start = p;
+            let mut nuls = 0;
+            while p < out.len() && nuls < 2 {
+                if out[p] == 0 {
+                    nuls += 1;
+                }
+                p += 1;
+            }
+            if nuls < 2 {
+                return Err("truncated record".into());
+            }
+            match sections.last_mut() {
+                Some(s) => s.1.extend_from_slice(&out[start..p]),
+                None => return Err("record before any header".into()),
+            }
+        } else {
+            let end = out[p..].iter().position(|b| *b == b'\n').ok_or("unterminated header")? + p;
+            let header = String::from_utf8_lossy(&out[p..end]).to_string();
+            if header.len() != 81 {
+                return Err(format!("unexpected header {header:?}"));
+            }
+            sections.push((header, Vec::new()));
+            p = end + 1;
+        }
+    }
+    let mut f = Vec::new();
+    let mut r = Vec::new();
+    for (header, body) in sections {
+        let rows = parse_raw_z(&body)?;
+        if header == format!("{} {}", fwd.0, fwd.1) {
+            f = rows;
+        } else if header == format!("{} {}", fwd.1, fwd.0) {
+            r = rows;
+        } else {
+            return Err(format!("unexpected header {header:?}"));
+        }
+    }
+    Ok((f, r))
+}
+
+fn mode_only(r: &Row) -> bool {
+    r.1 != 0 && r.3 != 0 && r.1 != r.3 && r.2 == r.4
+}
+
+fn without_mode_only(rows: &[Row]) -> Vec<Row> {
+    rows.iter().filter(|r| !mode_only(r)).cloned().collect()
+}
+
 fn mode_of(m: gix_object::tree::EntryMode) -> u32 {
     m.0 as u32
 }
@@ -496,7 +584,7 @@ pub fn main() {
 
     ck.sub(
         "pairs",
-        SubCfg::new(1_600, 40_000).max_len(1500).max_shrink(60),
+        SubCfg::new(6_000, 150_000).max_len(1500).max_shrink(60),
         |t, c| {
             // ---- generate
             let class = t.weighted(&[30, 3, 2, 1]);
@@ -512,6 +600,12 @@ pub fn main() {
                     let n = t.range(1, 7);
                     for _ in 0..n {
                         apply_edit(t, &mut b, &mut st);
+                    }
+                    // edits can be no-ops (nothing to pick) or cancel each other
+                    let mut tries = 0;
+                    while b == a && tries < 4 {
+                        apply_edit(t, &mut b, &mut st);
+                        tries += 1;
                     }
                 }
                 1 => {
@@ -551,7 +645,7 @@ pub fn main() {
             });
 
             // ---- build with git
-            let world = infra!(c, World::new("c44", true), "world");
+            let world = infra!(c, FastWorld::new("c44"), "world");
             let git = &world.git;
             let mut trees = Vec::new();
             let id_a = write_trees(&a, &mut trees);
@@ -583,54 +677,83 @@ pub fn main() {
             }
             let (hex_a, hex_b) = (hex(&id_a), hex(&id_b));
 
-            // the flattened listings according to git
-            for (id, flat) in [(&hex_a, &flat_a), (&hex_b, &flat_b)] {
-                let out = infra!(c, git.run(["ls-tree", "-r", "-z", "--full-tree", id.as_str()]), "git ls-tree");
-                let mut listed = BTreeMap::new();
-                for rec in out.split(|b| *b == 0).filter(|r| !r.is_empty()) {
-                    let tab = rec.iter().position(|b| *b == b'\t').unwrap_or(0);
-                    let meta = String::from_utf8_lossy(&rec[..tab]).to_string();
-                    let f: Vec<&str> = meta.split(' ').collect();
-                    if f.len() != 3 {
-                        c.infra(format!("unexpected ls-tree record {meta:?}"));
+            // the flattened listings according to git (model validation on a fixed fraction of the cases)
+            if t.chance(48) {
+                c.label("model-validated-by-ls-tree");
+                for (id, flat) in [(&hex_a, &flat_a), (&hex_b, &flat_b)] {
+                    let out = infra!(c, git.run(["ls-tree", "-r", "-z", "--full-tree", id.as_str()]), "git ls-tree");
+                    let mut listed = BTreeMap::new();
+                    for rec in out.split(|b| *b == 0).filter(|r| !r.is_empty()) {
+                        let tab = rec.iter().position(|b| *b == b'\t').unwrap_or(0);
+                        let meta = String::from_utf8_lossy(&rec[..tab]).to_string();
+                        let f: Vec<&str> = meta.split(' ').collect();
+                        if f.len() != 3 {
+                            c.infra(format!("unexpected ls-tree record {meta:?}"));
+                            return;
+                        }
+                        let mut oid = [0u8; 20];
+                        oid.copy_from_slice(&unhex(f[2]).unwrap_or(vec![0; 20]));
+                        listed.insert(rec[tab + 1..].to_vec(), (u32::from_str_radix(f[0], 8).unwrap_or(0), oid));
+                    }
+                    if &listed != flat {
+                        c.infra("git ls-tree -r disagrees with the harness' flattened model".to_string());
                         return;
                     }
-                    let mut oid = [0u8; 20];
-                    oid.copy_from_slice(&unhex(f[2]).unwrap_or(vec![0; 20]));
-                    listed.insert(rec[tab + 1..].to_vec(), (u32::from_str_radix(f[0], 8).unwrap_or(0), oid));
-                }
-                if &listed != flat {
-                    c.infra("git ls-tree -r disagrees with the harness' flattened model".to_string());
-                    return;
                 }
             }
 
+            // ---- git's answers for both directions (one process per variant)
+            let pairs_in = format!("{hex_a} {hex_b}\n{hex_b} {hex_a}\n");
+            let out_t = infra!(
+                c,
+                git.run_in(
+                    ["diff-tree", "--stdin", "-r", "-t", "--no-renames", "--raw", "-z", "--no-abbrev"],
+                    Some(pairs_in.as_bytes())
+                ),
+                "git diff-tree -t"
+            );
+            let out_r = infra!(
+                c,
+                git.run_in(
+                    ["diff-tree", "--stdin", "-r", "--no-renames", "--raw", "-z", "--no-abbrev"],
+                    Some(pairs_in.as_bytes())
+                ),
+                "git diff-tree"
+            );
+            let (t_fwd, t_rev) = infra!(c, parse_stdin_output(&out_t, (&hex_a, &hex_b)), "parse diff-tree -t");
+            let (r_fwd, r_rev) = infra!(c, parse_stdin_output(&out_r, (&hex_a, &hex_b)), "parse diff-tree");
+
             // ---- gitoxide
-            let odb = infra!(c, gix_odb::at(world.git_dir().join("objects")), "open object database");
+            let odb = infra!(c, gix_odb::at(world.repo().join("objects")), "open object database");
             let repo = infra!(
                 c,
                 gix::open_opts(world.repo(), gix::open::Options::isolated()),
                 "open repository"
             );
+            let empty_index = gix_index::State::new(gix_hash::Kind::Sha1);
+            let stack = infra!(
+                c,
+                repo.attributes_only(&empty_index, gix_worktree::stack::state::attributes::Source::IdMapping),
+                "attribute stack"
+            )
+            .detach();
+            let mut resource_cache = infra!(
+                c,
+                gix::diff::resource_cache(&repo, gix_diff::blob::pipeline::Mode::ToGit, stack, Default::default()),
+                "resource cache"
+            );
             let mut state = gix_diff::tree::State::default();
             let oid_a = ObjectId::from_bytes_or_panic(&id_a);
             let oid_b = ObjectId::from_bytes_or_panic(&id_b);
-            for (dir_name, from, to, from_hex, to_hex, flat_from, flat_to) in [
-                ("A->B", oid_a, oid_b, &hex_a, &hex_b, &flat_a, &flat_b),
-                ("B->A", oid_b, oid_a, &hex_b, &hex_a, &flat_b, &flat_a),
+            // a known class is reported only if nothing else is wrong with the case (the comparisons below continue
+            // modulo that class), so that other violations are not hidden behind it
+            let mut deferred: Option<(String, String)> = None;
+            for (dir_name, from, to, git_t, git_r, flat_from, flat_to) in [
+                ("A->B", oid_a, oid_b, t_fwd, r_fwd, &flat_a, &flat_b),
+                ("B->A", oid_b, oid_a, t_rev, r_rev, &flat_b, &flat_a),
             ] {
-                let git_t = infra!(
-                    c,
-                    git.run(["diff-tree", "-r", "-t", "--no-renames", "--raw", "-z", "--no-abbrev", from_hex.as_str(), to_hex.as_str()]),
-                    "git diff-tree -t"
-                );
-                let git_r = infra!(
-                    c,
-                    git.run(["diff-tree", "-r", "--no-renames", "--raw", "-z", "--no-abbrev", from_hex.as_str(), to_hex.as_str()]),
-                    "git diff-tree"
-                );
-                let git_t = sorted(infra!(c, parse_raw_z(&git_t), "parse diff-tree -t"));
-                let git_r = sorted(infra!(c, parse_raw_z(&git_r), "parse diff-tree"));
+                let git_t = sorted(git_t);
+                let git_r = sorted(git_r);
                 // oracle self-consistency: -t adds tree entries only
                 let git_t_files: Vec<Row> = git_t.iter().filter(|r| !is_tree_row(r)).cloned().collect();
                 if git_t_files != git_r {
@@ -649,20 +772,31 @@ pub fn main() {
                 let all = rows_of_records(&rec.records);
                 let gix_files = sorted(all.iter().filter(|r| !is_tree_row(r)).cloned().collect());
                 let gix_all = sorted(all.clone());
+                let mut modulo_mode_only = false;
                 if gix_files != git_r {
                     let sig = classify(&git_r, &gix_files);
-                    c.fail_sig(
-                        sig,
-                        format!(
-                            "{dir_name}: non-tree changes differ ({sig}).\n git: {}\n gix: {}",
-                            show_rows(&git_r),
-                            show_rows(&gix_files)
-                        ),
+                    let msg = format!(
+                        "{dir_name}: non-tree changes differ ({sig}).\n git: {}\n gix: {}",
+                        show_rows(&git_r),
+                        show_rows(&gix_files)
                     );
-                    return;
+                    if sig == "mode-only-change-dropped" {
+                        modulo_mode_only = true;
+                        deferred.get_or_insert((sig.to_string(), msg));
+                    } else {
+                        c.fail_sig(sig, msg);
+                        return;
+                    }
                 }
-                if gix_all != git_t {
-                    let sig = classify(&git_t, &gix_all);
+                let norm = |rows: &[Row]| -> Vec<Row> {
+                    if modulo_mode_only {
+                        without_mode_only(rows)
+                    } else {
+                        rows.to_vec()
+                    }
+                };
+                if norm(&gix_all) != norm(&git_t) {
+                    let sig = classify(&norm(&git_t), &norm(&gix_all));
                     c.fail_sig(
                         &format!("tree-entries-{sig}"),
                         format!(
@@ -739,21 +873,21 @@ pub fn main() {
                         RChange::Deletion { .. } => {}
                     }
                 }
+                let same_entry = |a: Option<&(u32, [u8; 20])>, b: &(u32, [u8; 20])| match a {
+                    Some(a) => a == b || (modulo_mode_only && a.1 == b.1),
+                    None => false,
+                };
+                let wrong: Vec<String> = flat_to
+                    .iter()
+                    .filter(|(p, v)| !same_entry(applied.get(*p), v))
+                    .map(|(p, _)| show(p))
+                    .collect();
+                let extra: Vec<String> = applied.keys().filter(|p| !flat_to.contains_key(*p)).map(|p| show(p)).collect();
                 ensure_sig!(
                     c,
                     "apply-does-not-yield-second-tree",
-                    &applied == flat_to,
-                    "{dir_name}: applying the recorded changes to the first tree does not yield the second: missing/different {:?}, extra {:?}",
-                    flat_to
-                        .iter()
-                        .filter(|(p, v)| applied.get(*p) != Some(v))
-                        .map(|(p, _)| show(p))
-                        .collect::<Vec<_>>(),
-                    applied
-                        .keys()
-                        .filter(|p| !flat_to.contains_key(*p))
-                        .map(|p| show(p))
-                        .collect::<Vec<_>>()
+                    wrong.is_empty() && extra.is_empty(),
+                    "{dir_name}: applying the recorded changes to the first tree does not yield the second: missing/different {wrong:?}, extra {extra:?}"
                 );
 
                 // file-name tracking: same records, base names only
@@ -783,67 +917,87 @@ pub fn main() {
                     );
                 }
 
-                // high-level API, rewrites off
-                let tree_from = infra!(c, repo.find_tree(from), "find tree (gix)");
-                let tree_to = infra!(c, repo.find_tree(to), "find tree (gix)");
-                let changes = match repo.diff_tree_to_tree(&tree_from, &tree_to, gix::diff::Options::default()) {
-                    Ok(ch) => ch,
+                // the rewrite-capable entry point with rewrites off (what `gix::Repository::diff_tree_to_tree` runs)
+                let lhs = infra!(c, odb.find_tree_iter(&from, &mut buf_a), "find lhs tree");
+                let rhs = infra!(c, odb.find_tree_iter(&to, &mut buf_b), "find rhs tree");
+                let mut hl: Vec<Row> = Vec::new();
+                let mut rewrite_seen = false;
+                let res = gix_diff::tree_with_rewrites(
+                    lhs,
+                    rhs,
+                    &mut resource_cache,
+                    &mut state,
+                    &repo.objects,
+                    |ch| -> Result<_, std::convert::Infallible> {
+                        use gix_diff::tree_with_rewrites::ChangeRef as W;
+                        match ch {
+                            W::Addition {
+                                location,
+                                entry_mode,
+                                id,
+                                ..
+                            } => hl.push((location.to_vec(), 0, [0u8; 20], mode_of(entry_mode), id20(&id))),
+                            W::Deletion {
+                                location,
+                                entry_mode,
+                                id,
+                                ..
+                            } => hl.push((location.to_vec(), mode_of(entry_mode), id20(&id), 0, [0u8; 20])),
+                            W::Modification {
+                                location,
+                                previous_entry_mode,
+                                previous_id,
+                                entry_mode,
+                                id,
+                            } => hl.push((
+                                location.to_vec(),
+                                mode_of(previous_entry_mode),
+                                id20(&previous_id),
+                                mode_of(entry_mode),
+                                id20(&id),
+                            )),
+                            W::Rewrite { .. } => rewrite_seen = true,
+                        }
+                        Ok(gix_diff::tree_with_rewrites::Action::Continue)
+                    },
+                    gix_diff::tree_with_rewrites::Options {
+                        location: Some(Location::Path),
+                        rewrites: None,
+                    },
+                );
+                match res {
+                    Ok(outcome) => ensure!(
+                        c,
+                        outcome.is_none(),
+                        "{dir_name}: tree_with_rewrites returns a rewrite outcome although tracking is off"
+                    ),
                     Err(e) => {
-                        c.fail(format!("{dir_name}: Repository::diff_tree_to_tree failed: {e}"));
+                        c.fail(format!("{dir_name}: tree_with_rewrites failed: {e}"));
                         return;
                     }
-                };
-                use gix_diff::tree_with_rewrites::Change as W;
-                let mut hl: Vec<Row> = Vec::new();
-                for ch in &changes {
-                    match ch {
-                        W::Addition {
-                            location,
-                            entry_mode,
-                            id,
-                            ..
-                        } => hl.push((location.to_vec(), 0, [0u8; 20], mode_of(*entry_mode), id20(id))),
-                        W::Deletion {
-                            location,
-                            entry_mode,
-                            id,
-                            ..
-                        } => hl.push((location.to_vec(), mode_of(*entry_mode), id20(id), 0, [0u8; 20])),
-                        W::Modification {
-                            location,
-                            previous_entry_mode,
-                            previous_id,
-                            entry_mode,
-                            id,
-                        } => hl.push((
-                            location.to_vec(),
-                            mode_of(*previous_entry_mode),
-                            id20(previous_id),
-                            mode_of(*entry_mode),
-                            id20(id),
-                        )),
-                        W::Rewrite { location, .. } => {
-                            c.fail(format!(
-                                "{dir_name}: diff_tree_to_tree reports a rewrite at {} although rewrite tracking is off",
-                                location.as_bstr()
-                            ));
-                            return;
-                        }
-                    }
                 }
+                ensure!(
+                    c,
+                    !rewrite_seen,
+                    "{dir_name}: tree_with_rewrites reports a rewrite although rewrite tracking is off"
+                );
                 let hl = sorted(hl);
-                if hl != git_t {
-                    let sig = classify(&git_t, &hl);
+                if norm(&hl) != norm(&git_t) || hl != gix_all {
+                    let sig = classify(&norm(&git_t), &norm(&hl));
                     c.fail_sig(
-                        &format!("high-level-{sig}"),
+                        &format!("with-rewrites-entry-point-{sig}"),
                         format!(
-                            "{dir_name}: Repository::diff_tree_to_tree differs from `diff-tree -t` ({sig}).\n git: {}\n gix: {}",
+                            "{dir_name}: tree_with_rewrites (rewrites off) differs from `diff-tree -t` or from gix_diff::tree ({sig}).\n git: {}\n gix: {}\n tree(): {}",
                             show_rows(&git_t),
-                            show_rows(&hl)
+                            show_rows(&hl),
+                            show_rows(&gix_all)
                         ),
                     );
                     return;
                 }
+            }
+            if let Some((sig, msg)) = deferred {
+                c.fail_sig(&sig, msg);
             }
             let _ = BString::default();
         },
